@@ -108,6 +108,35 @@ func poisonRound(mw *cors.Middleware, allowedOrigin string) {
 	} {
 		servePoison(mw, q)
 	}
+	// exchanges that end in a PANIC which an outer layer recovers (net/http does that for every connection): the
+	// ResponseWriter's WriteHeader panics while the middleware answers a preflight; the wrapped handler panics. Whatever the
+	// middleware borrowed for such an exchange must not come back dirty
+	// (lesson of seeded change C03-q: a pooled scratch map cleared only after WriteHeader returned)
+	for _, q := range []Req{
+		preflightReq(allowedOrigin, "GET", nil, false),
+		preflightReq(allowedOrigin, "PUT", []string{"x-listed-1"}, true),
+		preflightReq(allowedOrigin, "VERIFUNLISTED", []string{"authorization", "x-never-listed"}, false),
+		actualReq("GET", allowedOrigin),
+	} {
+		servePanicking(mw, q)
+	}
+}
+
+type panickingWriter struct{ *rw }
+
+func (w panickingWriter) WriteHeader(int) { panic("verif: the connection is gone") }
+
+type panickingHandler struct{}
+
+func (panickingHandler) ServeHTTP(http.ResponseWriter, *http.Request) {
+	panic(http.ErrAbortHandler)
+}
+
+func servePanicking(mw *cors.Middleware, q Req) {
+	defer func() { _ = recover() }()
+	w := newRW()
+	w.inner = panickingHandler{}
+	wrappedOnce(mw).ServeHTTP(panickingWriter{w}, q.httpReq())
 }
 
 type c12World struct {
